@@ -13,12 +13,14 @@ EXTENDS AggDefs, TLC, Json, Functions
 
 CONSTANTS Vals,      \* values fed to the aggregators
           MaxLen,    \* bound on the number of values
-          PMilles    \* percentile arguments in 1/10 percent (0 .. 1000)
+          PMilles,   \* percentile arguments in 1/10 percent (0 .. 1000)
+          LongLens   \* lengths n of the additional long inputs <<1, .., n>> (rank arithmetic on large groups)
 
 VARIABLE fed
 
 --------------------------------------------------------------------------------
-Init == fed = <<>>
+Init == \/ fed = <<>>
+        \/ \E n \in LongLens : fed = [ i \in 1..n |-> i ]
 
 Feed(v) == /\ Len(fed) < MaxLen
            /\ fed' = Append(fed, v)
